@@ -27,6 +27,167 @@ Proof.
     intros y; vgets; intros E; try discriminate E; inversion E; subst; fl; eqbs2.
   all: try assumption.
   all: try (rewrite getth_oob by lia; reflexivity).
-  all: match goal with |- ?G => idtac "GOAL" G end.
-  all: repeat match goal with H : _ |- _ => let T := type of H in idtac H ":" T; revert H end.
-Abort.
+Qed.
+
+Definition start_pc (o : opcall) (p' : pc) (vc : option nat) : Prop :=
+  match o with
+  | OpWait c _ _ => p' = Idle \/ exists a, p' = WLock1 a /\ w_c a = c /\ c <> 0 /\ vc <> None
+  | OpSignal n => p' = Idle \/ p' = SLock n
+  | OpInterrupt x e => p' = IRead x e
+  end.
+
+Lemma start_summ s t o s' : start s t o = Some s' ->
+  (forall y, inq s' y = inq s y) /\ (forall y, stof s' y = stof s y) /\ (forall y, pend s' y = pend s y) /\
+  (forall y, vcof s' y = vcof s y) /\ (forall y, semc s' y = semc s y) /\ npend s' = npend s /\
+  start_pc o (pcof s' t) (vcof s t).
+Proof.
+  intros H. start_cases H; apply ltb_lt in Hlt; unfold inq, stof, pend, vcof, semc; unf;
+    (split; [intros y; fl; eqbs2|]);
+    (split; [intros y; fl; eqbs2|]);
+    (split; [intros y; fl; eqbs2|]);
+    (split; [intros y; fl; eqbs2|]);
+    (split; [intros y; fl; eqbs2|]);
+    (split; [np|]);
+    cbn [start_pc]; pcs; unfold pcof; rewrite ?Hpc; auto.
+  right. eexists. split; [reflexivity|]. split; [reflexivity|]. split; [zb; assumption|congruence].
+Qed.
+
+Lemma start_pc_facts o p' vc : start_pc o p' vc ->
+  waitpc p' = false /\ enqpc p' = false /\ (forall kk y, p' <> PIState kk y) /\ (forall kk y, p' <> PIQLock kk y) /\
+  (forall kk y, p' <> PIDeq kk y) /\ (forall k c x, p' <> TRCmp k c x) /\ (pc_args p' <> None -> vc <> None).
+Proof.
+  destruct o; cbn [start_pc]; intros H; split_all; subst; cbn [waitpc enqpc pc_args pc_caller];
+    repeat split; try congruence; try (intros; discriminate).
+Qed.
+
+Lemma tstate_eqb_eq a b : tstate_eqb a b = true -> a = b.
+Proof. destruct a, b; simpl; congruence. Qed.
+
+Lemma sched_summ s l s' : step s l = Some s' ->
+  match l with LRun _ | LStandby _ _ | LExpire _ _ | LTick _ => True | _ => False end ->
+  (forall y, inq s' y = inq s y) /\ (forall y, stof s' y = stof s y \/ stof s y <> Sleeping) /\
+  (forall y, pend s' y = pend s y) /\ (forall y, vcof s' y = vcof s y) /\ (forall y, semc s' y = semc s y) /\
+  npend s' = npend s /\ (forall w y, getv s' w = VReady y -> getv s w = VReady y).
+Proof.
+  intros H L. destruct l; try contradiction; simpl in H.
+  - destruct (Nat.ltb t (length (threads s)) && tstate_eqb (t_state (getth s t)) Ready) eqn:C; [|discriminate].
+    inv_some H. apply andb_true_iff in C. destruct C as [_ C]. apply tstate_eqb_eq in C.
+    unfold inq, stof, pend, vcof, semc. repeat split; try (intros y; fl; eqbs2); try np.
+    all: try (right; congruence).
+    all: try (intros w y; autorewrite with st; auto; fail).
+  - destruct (Nat.ltb t (length (threads s)) && tstate_eqb (t_state (getth s t)) Standby &&
+              match t_vcpu (getth s t) with Some w => Nat.eqb v w | None => false end) eqn:C; [|discriminate].
+    inv_some H. apply andb_true_iff in C. destruct C as [C _]. apply andb_true_iff in C. destruct C as [_ C]. apply tstate_eqb_eq in C.
+    unfold inq, stof, pend, vcof, semc. repeat split; try (intros y; fl; eqbs2); try np.
+    all: try (right; congruence).
+    all: try (intros w y; autorewrite with st; auto; fail).
+  - repeat match type of H with
+    | None = Some _ => discriminate
+    | context [match ?x with _ => _ end] => destruct x eqn:?
+    end; try discriminate; inv_some H.
+    unfold inq, stof, pend, vcof, semc. repeat split; try (intros y; fl; eqbs2; fail); try np.
+    all: try (intros w y; rewrite getv_setv; destruct (Nat.eqb v w && Nat.ltb v (nvcpus s)); [discriminate|auto]; fail).
+  - destruct (0 <=? d); [|discriminate]. inv_some H.
+    unfold inq, stof, pend, vcof, semc. repeat split; try (intros y; fl; eqbs2; fail); try np.
+    all: try (intros w y; autorewrite with st; auto; fail).
+Qed.
+
+(* ---------------------------------------------------------------------------------------- *)
+(* the structural invariant is preserved by the other labels *)
+Lemma sinv_vstep s v s' : sinv s -> vstep s v = Some s' -> sinv s'.
+Proof.
+  intros I H. destruct (vstep_effect _ _ _ H) as (Hn&Hp&_). destruct (vstep_locks _ _ _ H) as (Hv&Env&Fv&_).
+  destruct (vstep_summ _ _ _ H) as (Eq&Ei&Es&Ep&Evc&_&_&Er).
+  assert (Hin : forall y, In y (queue s') -> In y (queue s)).
+  { intros y Hi. destruct Eq as [E|(t&_&E)]; rewrite E in Hi; [auto|eapply in_remove_tid; eauto]. }
+  constructor.
+  - destruct Eq as [E|(t&_&E)]; rewrite E; [apply (s_nodup _ I)|apply nodup_remove_tid, (s_nodup _ I)].
+  - intros y Hi. pose proof (Hin _ Hi) as Ho. destruct (s_q _ I _ Ho) as (Hy&Hq&Hst&Hw). rewrite Hn, Hp.
+    split; [exact Hy|]. split; [|split; [|exact Hw]].
+    + destruct (Ei y) as [E|(_&E&_)]; [congruence|]. exfalso. rewrite E in Hi.
+      eapply notin_remove_tid; [apply (s_nodup _ I)|exact Hi].
+    + destruct (Es y) as [E|E]; [congruence|]. pose proof (s_vr _ I _ _ E). congruence.
+  - intros w kk y Hw Hpc. rewrite Hn in Hw. rewrite Hp in Hpc. pose proof (s_pis _ I _ _ _ Hw Hpc).
+    destruct (Ei y) as [E|(_&_&E)]; congruence.
+  - intros w y Hg. destruct (Nat.eq_dec w v) as [->|N]; [apply Er; exact Hg|].
+    rewrite Fv in Hg by auto. pose proof (s_vr _ I _ _ Hg). destruct (Ei y) as [E|(_&_&E)]; congruence.
+  - intros y Hpd Hi. rewrite Ep in Hpd. destruct (s_hand _ I _ Hpd (Hin _ Hi)) as (h&k&c&Hh&Hw).
+    exists h, k, c. rewrite Hn, !Hp. auto.
+  - intros t k c x Ht Hpc Hx. rewrite Hn in *. rewrite Hp in Hpc. rewrite Ep. exact (s_cmp _ I _ _ _ _ Ht Hpc Hx).
+  - intros t Ht Hpc. rewrite Hn in Ht. rewrite Hp in Hpc. rewrite Ep. apply (s_enq _ I); auto.
+  - intros t Ht Hpc. rewrite Hn in Ht. rewrite Hp in Hpc. rewrite Evc. apply (s_ph _ I); auto.
+Qed.
+
+Lemma sinv_start s t o s' : sinv s -> start s t o = Some s' -> sinv s'.
+Proof.
+  intros I H. destruct (start_effect _ _ _ _ H) as (Ht&Hn&Hi&_&Fr&_&_&Eq&_&Ev&_).
+  destruct (start_summ _ _ _ _ H) as (Ei&Es&Ep&Evc&_&_&Hpc').
+  apply start_pc_facts in Hpc'. destruct Hpc' as (F1&F2&F3&F4&F5&F6&F7).
+  constructor.
+  - rewrite Eq. apply (s_nodup _ I).
+  - intros y Hy. rewrite Eq in Hy. destruct (s_q _ I _ Hy) as (Hy'&Hq&Hst&Hw). rewrite Hn, Ei, Es.
+    repeat split; auto. rewrite Fr; auto. intros ->. rewrite Hi in Hw. discriminate.
+  - intros w kk y Hw Hpc. rewrite Hn in Hw. rewrite Ei. destruct (Nat.eq_dec w t) as [->|N]; [exfalso; eapply F3; eauto|].
+    rewrite Fr in Hpc by auto. exact (s_pis _ I _ _ _ Hw Hpc).
+  - intros w y Hg. rewrite (getv_of_vcpus _ _ _ Ev) in Hg. rewrite Ei. eapply (s_vr _ I); eauto.
+  - intros y Hpd Hy. rewrite Ep in Hpd. rewrite Eq in Hy. destruct (s_hand _ I _ Hpd Hy) as (h&k&c&Hh&Hw).
+    exists h, k, c. rewrite Hn. split; [exact Hh|]. rewrite Fr; [exact Hw|]. intros ->. rewrite Hi in Hw. destruct Hw; discriminate.
+  - intros t0 k c x Ht0 Hpc Hx. rewrite Hn in *. rewrite Ep. destruct (Nat.eq_dec t0 t) as [->|N]; [exfalso; eapply F6; eauto|].
+    rewrite Fr in Hpc by auto. exact (s_cmp _ I _ _ _ _ Ht0 Hpc Hx).
+  - intros t0 Ht0 Hpc. rewrite Hn in *. rewrite Ep. destruct (Nat.eq_dec t0 t) as [->|N]; [congruence|].
+    rewrite Fr in Hpc by auto. exact (s_enq _ I _ Ht0 Hpc).
+  - intros t0 Ht0 Hpc. rewrite Hn in *. rewrite Evc. destruct (Nat.eq_dec t0 t) as [->|N]; [auto|].
+    rewrite Fr in Hpc by auto. exact (s_ph _ I _ Ht0 Hpc).
+Qed.
+
+Lemma sinv_sched s l s' : sinv s -> step s l = Some s' ->
+  match l with LRun _ | LStandby _ _ | LExpire _ _ | LTick _ => True | _ => False end -> sinv s'.
+Proof.
+  intros I H L. destruct (sched_effect _ _ _ H L) as (Hn&Hp&_&_&_&_&_&_&_&_&Eq).
+  destruct (sched_summ _ _ _ H L) as (Ei&Es&Ep&Evc&_&_&Ev).
+  constructor.
+  - rewrite Eq. apply (s_nodup _ I).
+  - intros y Hy. rewrite Eq in Hy. destruct (s_q _ I _ Hy) as (Hy'&Hq&Hst&Hw). rewrite Hn, Ei, Hp.
+    repeat split; auto. destruct (Es y) as [E|E]; congruence.
+  - intros w kk y Hw Hpc. rewrite Hn in Hw. rewrite Hp in Hpc. rewrite Ei. exact (s_pis _ I _ _ _ Hw Hpc).
+  - intros w y Hg. rewrite Ei. eapply (s_vr _ I); eauto.
+  - intros y Hpd Hy. rewrite Ep in Hpd. rewrite Eq in Hy. destruct (s_hand _ I _ Hpd Hy) as (h&k&c&Hh&Hw).
+    exists h, k, c. rewrite Hn, !Hp. auto.
+  - intros t0 k c x Ht0 Hpc Hx. rewrite Hn in *. rewrite Hp in Hpc. rewrite Ep. exact (s_cmp _ I _ _ _ _ Ht0 Hpc Hx).
+  - intros t0 Ht0 Hpc. rewrite Hn in *. rewrite Hp in Hpc. rewrite Ep. exact (s_enq _ I _ Ht0 Hpc).
+  - intros t0 Ht0 Hpc. rewrite Hn in *. rewrite Hp in Hpc. rewrite Evc. exact (s_ph _ I _ Ht0 Hpc).
+Qed.
+
+Lemma sinv_step s l s' : sinv s -> sp_inv s -> locks_inv s -> step s l = Some s' -> sinv s'.
+Proof.
+  intros I Isp Il H. destruct l.
+  - simpl in H. eapply sinv_start; eauto.
+  - simpl in H. eapply sinv_tstep; eauto.
+  - eapply sinv_sched; eauto. exact Logic.I.
+  - eapply sinv_sched; eauto. exact Logic.I.
+  - eapply sinv_sched; eauto. exact Logic.I.
+  - simpl in H. eapply sinv_vstep; eauto.
+  - eapply sinv_sched; eauto. exact Logic.I.
+Qed.
+
+Lemma init_getth c o ths nv y :
+  getth (init c o ths nv) y = thread0 \/ exists vc, getth (init c o ths nv) y = mk_thread vc Running.
+Proof.
+  unfold getth, init; simpl. revert y. induction ths as [|a r IH]; destruct y; simpl; eauto.
+Qed.
+Lemma init_getv c o ths nv v : getv (init c o ths nv) v = VIdle.
+Proof. unfold getv, init; simpl. revert v. induction nv; destruct v; simpl; auto. Qed.
+
+Lemma sinv_init c o ths nv : sinv (init c o ths nv).
+Proof.
+  constructor.
+  - constructor.
+  - intros y [].
+  - intros w kk y _ Hp. rewrite init_pcof in Hp. discriminate.
+  - intros v y Hg. rewrite init_getv in Hg. discriminate.
+  - intros y _ [].
+  - intros t k c0 x _ Hp. rewrite init_pcof in Hp. discriminate.
+  - intros t _ Hp. rewrite init_pcof in Hp. discriminate.
+  - intros t _ Hp. rewrite init_pcof in Hp. exfalso. apply Hp. reflexivity.
+Qed.
+
